@@ -149,6 +149,17 @@ FINDINGS = [
     dict(id="KF-C03-comment-hides-assignments", property="C03", status="fixed", commit="6050996",
          what="a comment-only line at a lower column inside a branch / loop body made the constant tracker treat the block as binding nothing (stale folded len()/values)",
          cases=[prog("C03", P + 'a = analog_read("A0")\nw = [1, 2, 3]\nv = 200\nfor i in range(2):\n# note\n    w.append(5)\n    v = v + 1\nmon.write(len(w))\nmon.write(v)\n', [{"passes": 0, "ar": {"A0": [5]}}], "column-0 comment inside a for body that appends to a constant list", space="K")]),
+    dict(id="KF-C06-helper-only-globals", property="C06", status="fixed", commit="6094e7c",
+         what="a variable first bound through a helper's 'global' statement was never declared at file scope (sketch did not compile / main-loop assignment declared a local / constant first assignment after the helper call left the helper's value)",
+         cases=[prog("C06", c06.PRO + "def setgg():\n    global gg\n    gg = 5\nsetgg()\nwhile True:\n    gg = gg + 1\n    mon.write(gg)\n    sleep(1)\n", [{"passes": 1, "ar": {"A0": [4]}}], "global gg only assigned inside a helper", space="F", feats=["fn_global_only"]),
+                prog("C01", P + "def setg():\n    global g\n    g = 120\n" + AB + "setg()\ng = 200\nmon.write(g)\n", RUN_AB, "helper assigns the global before its first (constant) top-level assignment", space="F")]),
+    dict(id="KF-C06-mixed-tuple-local", property="C06", status="fixed", commit="dfcc9f9",
+         what="'x, w = 2, 3' with x already declared emitted 'int w' as a local of setup(): any later use in loop() did not compile",
+         cases=[prog("C06", c06.PRO + "tm = 1\ntm, tn = 2, a\nwhile True:\n    tn = tn + tm\n    mon.write(tn)\n    sleep(1)\n", [{"passes": 1, "ar": {"A0": [4]}}], "tuple assignment introducing a new sketch-level name", space="F", feats=["tuple_mixed"])]),
+    dict(id="KF-C20-pot-truncation", property="C20", status="fixed", commit="3b8613d",
+         what="Potentiometer.read() truncated the provider's value before validating it: -0.5 read as 0 and 1023.5 as 1023 instead of raising", cases=[]),
+    dict(id="KF-C11-parser-stack-overflow", property="C11", status="fixed", commit="cc28945",
+         what="text on which CPython's parser gives up ('x = ' + '-' * 100000 + '1': MemoryError 'Parser stack overflowed') leaked a MemoryError from parse()", cases=[]),
     dict(id="KF-C05-rebind", property="C05", status="open", commit=None,
          what="a Servo or Button name declared before the main loop and re-bound to another pin at the top of the loop body keeps driving/sampling the first pin (CPython uses the new object)",
          cases=[c05_case(("servo",), ("both",), ("loop",), True, 2), c05_case(("button",), ("both",), ("loop",), True, 2)]),
